@@ -360,24 +360,6 @@ def stepDev (o : Obj) (t : String) : List String :=
           | .err _ _ => []
         | .err _ _ => []
        else [])
-      ++ (let hasEff : Bool := match script.head? with
-            | some c => (match c.eff with | .none => false | _ => true)
-            | none => false
-          if name = "join" ∧ isObj (argAt args 0) ∧ (lenObj ∨ hasEff)
-          then ["join_separator_before_length"] else [])
-      ++ (if !callable ∧ lenObj ∧ ["every", "some", "forEach", "map", "filter", "reduce", "reduceRight"].contains name
-          then ["callable_before_length"] else [])
-      ++ (let len0 : Bool := match readLen O s with | .ok len _ => len == 0 | .err _ _ => false
-          if name = "lastIndexOf" ∧ args.length > 1 ∧ isObj (argAt args 1) ∧ len0
-          then ["lastIndexOf_converts_fromIndex_of_empty"] else [])
-      ++ (if name = "sort" then
-            let len := match readLen O s with | .ok len _ => len | .err _ _ => 0
-            let strs := (List.range len).filterMap fun k =>
-              if O.has s k ∧ O.get s k ≠ .undef then some (env.ts (O.get s k)) else none
-            if strs.any (fun x => strs.any (fun y =>
-                bytesLt x y != bytesLt (OttoVerif.Str.unitsOfBytes x) (OttoVerif.Str.unitsOfBytes y)))
-            then ["sort_code_point_order"] else []
-          else [])
     | none => []
   | _ => []
 
